@@ -41,6 +41,13 @@ fn line_changes(patched_file: &PatchedFile) -> Vec<LineChange> {
     let mut deleted_lines: VecDeque<&Line> = VecDeque::new();
     let mut prev_line = None;
     for hunk in patched_file.hunks() {
+        // Where the hunk starts in the new file. A hunk with no target lines ("+N,0") is
+        // positioned by git *after* line N.
+        let target_start = if hunk.target_length == 0 {
+            hunk.target_start + 1
+        } else {
+            hunk.target_start
+        };
         for line in hunk.lines() {
             if line.is_added() {
                 if let Some(deleted_line) = deleted_lines.pop_front() {
@@ -60,11 +67,23 @@ fn line_changes(patched_file: &PatchedFile) -> Vec<LineChange> {
             } else if line.is_removed() {
                 deleted_lines.push_back(line);
             } else if line.is_context() {
-                clear_or_fold_deleted_lines(&prev_line, &mut deleted_lines, &mut line_changes);
+                clear_or_fold_deleted_lines(
+                    &prev_line,
+                    &mut deleted_lines,
+                    &mut line_changes,
+                    hunk.source_start,
+                    target_start,
+                );
             }
             prev_line = Some(line);
         }
-        clear_or_fold_deleted_lines(&prev_line, &mut deleted_lines, &mut line_changes);
+        clear_or_fold_deleted_lines(
+            &prev_line,
+            &mut deleted_lines,
+            &mut line_changes,
+            hunk.source_start,
+            target_start,
+        );
     }
     line_changes
 }
@@ -118,10 +137,20 @@ fn push_or_merge_range(ranges: &mut Vec<Range<usize>>, mut new: Range<usize>) {
 }
 
 /// Pushes the first deleted line to the `line_changes` and deletes all the rest.
-fn fold_deleted_lines(deleted_lines: &mut VecDeque<&Line>, line_changes: &mut Vec<LineChange>) {
+///
+/// A deleted line only has a line number in the old file. It is reported at the same distance
+/// from the hunk's start in the new file, so that hunks shifted by earlier insertions or
+/// deletions are still located correctly.
+fn fold_deleted_lines(
+    deleted_lines: &mut VecDeque<&Line>,
+    line_changes: &mut Vec<LineChange>,
+    hunk_source_start: usize,
+    hunk_target_start: usize,
+) {
     if let Some(deleted_line) = deleted_lines.pop_front() {
         line_changes.push(LineChange {
-            line: deleted_line.source_line_no.unwrap(),
+            line: (deleted_line.source_line_no.unwrap() + hunk_target_start)
+                .saturating_sub(hunk_source_start),
             ranges: None,
         })
     }
@@ -133,13 +162,20 @@ fn clear_or_fold_deleted_lines(
     prev_line: &Option<&Line>,
     deleted_lines: &mut VecDeque<&Line>,
     line_changes: &mut Vec<LineChange>,
+    hunk_source_start: usize,
+    hunk_target_start: usize,
 ) {
     if prev_line.is_some_and(|prev: &Line| prev.is_added()) {
         // Consecutive deleted lines followed by a new line is a single modified line and
         // should already be handled by the new line handler.
         deleted_lines.clear();
     } else {
-        fold_deleted_lines(deleted_lines, line_changes);
+        fold_deleted_lines(
+            deleted_lines,
+            line_changes,
+            hunk_source_start,
+            hunk_target_start,
+        );
     }
 }
 
